@@ -534,7 +534,21 @@ fn c14_conc(case: &Case) {
         // the property serialises. Registrations and merges are set-up API calls and stay in the
         // sequential prefix (a registration racing a write is check-then-act in dispatch and is
         // not linearizable, but that is outside the stated property; see DESIGN.md).
-        .map(|_| (0..range(1, 4)).map(|_| gen_op(true, &mut uniq, true)).collect())
+        // (Merges are applied under one write lock on the unchanged tree, so they may join in:
+        // a reader must see a merge entirely or not at all.)
+        .map(|_| {
+            (0..range(1, 4))
+                .map(|_| {
+                    if simkernel::choose(6) == 0 {
+                        let Value::Object(o) = json!({"m": gen_value(&mut uniq), "a": gen_value(&mut uniq), "z": gen_value(&mut uniq)}) else { unreachable!() };
+                        simkernel::count("probe.merge_among_concurrent_requests");
+                        if simkernel::choose(2) == 0 { Op::MergeRoot(o) } else { Op::MergeAt(gen_pointer(true), o) }
+                    } else {
+                        gen_op(true, &mut uniq, true)
+                    }
+                })
+                .collect()
+        })
         .collect();
     let stamps = Arc::new(Stamps::new());
     let results: Arc<std::sync::Mutex<Vec<Completed<Op, Ret>>>> = Arc::new(std::sync::Mutex::new(Vec::new()));
